@@ -186,7 +186,7 @@ func vpC02Term(ti int) {
 	vpSymLeaves = false
 	vpSetField(x, f, shape, 'a')
 	vpSymLeaves = true
-	cell := vpTypeNames[ti] + "." + fi.Name + "/" + string([]byte{'0' + byte(shape)})
+	cell := vpTypeNames[ti] + "." + fi.Name + "/" + string([]byte{'0' + byte(shape/10), '0' + byte(shape%10)})
 	b, err := vpMarshalItem(x)
 	vpAssert("term/marshal/"+cell, err == nil && len(b) > 0)
 	doc, _ := vpParseJSON(b)
